@@ -4,23 +4,37 @@
 //
 //   composite_drv <seed> <shapes-per-depth>     systematic sweep, one result line per case + SUMMARY
 //   composite_drv --case "<case line>"          re-run exactly one case (replay)
-//   composite_drv --probe                       constant-minibatch probe of batch::normalize
+//   composite_drv --probe                       fixed constant / nearly constant minibatches through batch::normalize,
+//                                               judged like sweep cases (PROBE information lines + CAND/FAIL verdict lines)
 //
 // case line:  <function> dev=<naive|eigen> shape=<d0,d1,..|->x<B> dim=<d> seed=<s>
 // result:     `ok` or `FAIL <case line> :: <class> <details>`
 //
 // Coordinates: dims padded with 1 up to `dim`; base = prod dims[<dim], n = dims[dim], U = prod
 // dims[>dim]; element [low, k, hi] of sample b is  low + base * (k + n * (hi + U * b)).
-// Tolerance: |got - exact| <= K * 2^-23 * scale,  scale = max(1, |exact|, max |x_j| over the
-// inputs the coordinate depends on, max |summand| of the documented sum);  K = 4.
+// Tolerance: |got - exact| <= K * 2^-23 * scale + extra,  scale = max(1, |exact|, max |x_j| over the
+// inputs the coordinate depends on, max |summand| of the documented sum);  K = 4;  u = 2^-24.
+// extra = first-order rounding-error bound of the parts whose error grows with the number of terms:
+//   n-term float32 sum (any order):  (n-1) u sum_j |term_j|     (sum, mean [/n], batch::mean [/B], container sum/mean)
+//   logsumexp as coded (n-1 steps  t <- fl32(big + log(1 + expf(fl32(small - big)))),  each step adds at most
+//     u|t| (final rounding) + 0.28u (rounded difference) + u (expf, 1 ulp) and passes the incoming error on with a
+//     factor sigma <= 1):  |dL| <= (n-1) u (max|x_j| + ln n + 1.5)
+//   softmax_cross_entropy(x, t) = -sum_k fl(t_k fl(x_k - L^)):  sum_k |t_k| (|dL| + u|x_k - L|) + u sum|s_k| + (n-1) u sum|s_k|
+//     = |dL| sum_k |t_k| + (n+1) u sum_k |s_k|,   s_k = t_k (x_k - L).
 // batch::normalize: its documented variance v = B/(B-1) (mean(x^2) - m^2) is a difference of
-// float32 quantities of size max x^2, each step rounded: |dv| <= (3B+4)/2 * 2^-23 * B/(B-1) * max x^2.
-// Well-conditioned elements (v + eps > 4 dv) get the first-order propagated term |r| dv / (v + eps)
-// added to the tolerance and are judged strictly.  Ill-conditioned elements (the samples of the
-// element nearly equal: v + eps <= 4 dv) that miss the tolerance are the cancellation defect of the
-// E[x^2] - m^2 formulation (negative variance -> NaN, or values off by an order of magnitude);
-// they are printed as `CAND <case line> :: ...` lines, not as FAIL (candidate finding, reported
-// separately by engines/composites.py).
+// float32 quantities of size max x^2, each step rounded: |dv| <= (3B+4)/2 * 2^-23 * B/(B-1) * max x^2
+// (x^2: u; B-term sum: (B-1)u; /B: u; m: B u relative to max|x| so m^2: (2B+1)u; the difference and the scaling: 2u).
+// The numerator fl(x - m^) carries  en = (B+1) u max|x| + u |x - m|  ((B-1)u for the sum, 2u for the division by B).
+// Well-conditioned elements (v + eps > 4 dv) get the first-order propagated terms |r| dv / (v + eps) +
+// en / sqrt(v + eps) added to the tolerance and are judged strictly.  Ill-conditioned elements (the samples
+// of the element nearly equal: v + eps <= 4 dv) that miss the tolerance are the cancellation defect of the
+// E[x^2] - m^2 formulation ONLY IF the value is one that a computed variance v^ in [v - dv, v + dv] produces:
+//   NaN                      only when v - dv + eps <= 0 (the computed radicand can be negative);
+//   otherwise the sign of x - m (unless |x - m| <= en) and
+//   (|x - m| - en)+ / sqrt(v + dv + eps) <= |got| <= (|x - m| + en) / sqrt(v - dv + eps)   (no upper end when v - dv + eps <= 0).
+// Those are printed as `CAND <case line> :: ...` (candidate finding D31, reported by engines/composites.py through
+// ctx.violation); an ill-conditioned value outside that interval is an ordinary FAIL.  All coordinates of a case are
+// examined: a FAIL anywhere in the case wins over the CANDs of the same case.
 // Inputs are uniform in [-8, 8] (large logits: known finding D23, not exercised here).
 #include <primitiv/primitiv.h>
 #include <algorithm>
@@ -87,24 +101,38 @@ struct Result { bool ok; string cls, details; double ratio; size_t coords; bool 
 static Result fail(const string &cls, const string &d) { return Result{false, cls, d, 0, 0, false}; }
 
 // expected value + scale per output coordinate; compare
-struct Expect { vector<double> val, scale, extra; vector<char> illcond; vector<uint32_t> out_dims; uint32_t out_B; };
+struct Expect { vector<double> val, scale, extra; vector<char> illcond; vector<double> num, en, vlo, vhi; vector<uint32_t> out_dims; uint32_t out_B; };
+// ill-conditioned batch::normalize coordinate i: is `g` a value that a computed variance within dv of v produces?
+static bool cancellation_explains(const Expect &e, size_t i, double g, string *why) {
+  double num = e.num[i], a = std::fabs(num), en = e.en[i], lo = e.vlo[i], hi = e.vhi[i], rel = 1 + K * ULP32;
+  double upper = lo > 0 ? (a + en) / std::sqrt(lo) * rel : INFINITY, lower = std::max(0.0, a - en) / std::sqrt(hi) / rel;
+  std::ostringstream o; o.precision(9);
+  o << " cancellation: x-m=" << num << " en=" << en << " v+eps in [" << lo << "," << hi << "] so |y| in [" << lower << "," << upper << "]" << (lo <= 0 ? " or NaN" : "");
+  *why = o.str();
+  if (std::isnan(g)) return lo <= 0;
+  if (a > en && g != 0 && (g > 0) != (num > 0)) return false;   // wrong sign
+  return std::fabs(g) <= upper && std::fabs(g) >= lower;
+}
 static Result compare(const Expect &e, const Shape &s, const vector<float> &got) {
   Shape want(e.out_dims, e.out_B);
   if (!(s == want)) return fail("shape", "got " + s.to_string() + " expected " + want.to_string());
   if (got.size() != e.val.size()) return fail("size", "got " + std::to_string(got.size()) + " values, expected " + std::to_string(e.val.size()));
-  double worst = 0;
+  double worst = 0; Result ff, fc; size_t nfail = 0, ncand = 0;   // every coordinate is examined
   for (size_t i = 0; i < got.size(); ++i) {
     double tol = K * ULP32 * e.scale[i] + (e.extra.empty() ? 0.0 : e.extra[i]);
     double err = std::fabs((double)got[i] - e.val[i]);
     if (!(err <= tol)) {  // also catches NaN
       std::ostringstream o; o.precision(9);
       o << "element " << i << " got " << got[i] << " exact " << e.val[i] << " err " << err << " tol " << tol;
-      Result f = fail(std::isfinite(got[i]) ? "value" : "not-finite", o.str());
-      f.cand = !e.illcond.empty() && e.illcond[i];
-      return f;
+      Result f = fail(std::isfinite(got[i]) ? "value" : "not-finite", o.str()); string why;
+      if (!e.illcond.empty() && e.illcond[i]) { f.cand = cancellation_explains(e, i, got[i], &why); f.details += why + (f.cand ? "" : " NOT-EXPLAINED-BY-CANCELLATION"); }
+      if (f.cand) { if (!ncand++) fc = f; } else { if (!nfail++) ff = f; }
+      continue;
     }
     worst = std::max(worst, err / tol);
   }
+  if (nfail) { ff.details += " [" + std::to_string(nfail) + " failing, " + std::to_string(ncand) + " candidate coordinate(s) in this case]"; return ff; }
+  if (ncand) { fc.details += " [" + std::to_string(ncand) + " candidate coordinate(s) in this case]"; return fc; }
   return Result{true, "", "", worst, got.size(), false};
 }
 static bool same_bits(const vector<float> &a, const vector<float> &b) { return a.size() == b.size() && (a.empty() || std::memcmp(a.data(), b.data(), a.size() * sizeof(float)) == 0); }
@@ -184,15 +212,15 @@ static Inputs make_inputs(const Case &c) {
 
 static Expect expect(const Case &c, const Inputs &in) {
   Geo g = geo(c); Expect e; const string &f = c.fn; const vector<float> &x = in.x;
-  auto full = [&]() { e.out_dims = c.dims; e.out_B = c.B; e.val.assign((size_t)g.V * c.B, 0); e.scale.assign(e.val.size(), 1); };
-  auto red = [&](uint32_t B) { e.out_dims = reduced_dims(c); e.out_B = B; e.val.assign((size_t)g.base * g.U * B, 0); e.scale.assign(e.val.size(), 1); };
-  Geo go = g; go.n = 1;
+  auto full = [&]() { e.out_dims = c.dims; e.out_B = c.B; e.val.assign((size_t)g.V * c.B, 0); e.scale.assign(e.val.size(), 1); e.extra.assign(e.val.size(), 0); };
+  auto red = [&](uint32_t B) { e.out_dims = reduced_dims(c); e.out_B = B; e.val.assign((size_t)g.base * g.U * B, 0); e.scale.assign(e.val.size(), 1); e.extra.assign(e.val.size(), 0); };
+  Geo go = g; go.n = 1; const double u = ULP32 / 2;
   if (f == "logsumexp" || f == "sum" || f == "mean") {
     red(c.B);
     for (uint32_t b = 0; b < c.B; ++b) for (uint32_t hi = 0; hi < g.U; ++hi) for (uint32_t low = 0; low < g.base; ++low) {
       size_t o = at(go, low, 0, hi, b); double mx = 0, v;
       if (f == "logsumexp") v = lse_exact(x, g, low, hi, b, &mx);
-      else { v = 0; for (uint32_t j = 0; j < g.n; ++j) { double a = x[at(g, low, j, hi, b)]; v += a; mx = std::max(mx, std::fabs(a)); } if (f == "mean") v /= g.n; }
+      else { double sa = 0; v = 0; for (uint32_t j = 0; j < g.n; ++j) { double a = x[at(g, low, j, hi, b)]; v += a; sa += std::fabs(a); mx = std::max(mx, std::fabs(a)); } e.extra[o] = (g.n - 1.0) * u * sa; if (f == "mean") { v /= g.n; e.extra[o] /= g.n; } }
       e.val[o] = v; e.scale[o] = std::max(1.0, std::max(std::fabs(v), mx));
     }
   } else if (f == "log_softmax" || f == "softmax") {
@@ -204,9 +232,10 @@ static Expect expect(const Case &c, const Inputs &in) {
   } else if (f == "sce_dense" || f == "sce_dense_tb1") {
     red(c.B);
     for (uint32_t b = 0; b < c.B; ++b) for (uint32_t hi = 0; hi < g.U; ++hi) for (uint32_t low = 0; low < g.base; ++low) {
-      double mx; double L = lse_exact(x, g, low, hi, b, &mx); double v = 0, ms = 0;
-      for (uint32_t k = 0; k < g.n; ++k) { double tv = in.t[at(g, low, k, hi, in.tB == 1 ? 0 : b)]; double s = tv * ((double)x[at(g, low, k, hi, b)] - L); v -= s; ms = std::max(ms, std::fabs(s)); }
+      double mx; double L = lse_exact(x, g, low, hi, b, &mx); double v = 0, ms = 0, ss = 0, st = 0;
+      for (uint32_t k = 0; k < g.n; ++k) { double tv = in.t[at(g, low, k, hi, in.tB == 1 ? 0 : b)]; double s = tv * ((double)x[at(g, low, k, hi, b)] - L); v -= s; ms = std::max(ms, std::fabs(s)); ss += std::fabs(s); st += std::fabs(tv); }
       size_t o = at(go, low, 0, hi, b); e.val[o] = v; e.scale[o] = std::max(std::max(1.0, std::fabs(v)), std::max(mx, ms));
+      e.extra[o] = u * ((g.n + 1.0) * ss + (g.n - 1.0) * (mx + std::log((double)g.n) + 1.5) * st);
     }
   } else if (f == "sce_sparse" || f == "sce_sparse_1") {
     red(c.B);
@@ -215,10 +244,10 @@ static Expect expect(const Case &c, const Inputs &in) {
       double v = -((double)x[at(g, low, k, hi, b)] - L); size_t o = at(go, low, 0, hi, b); e.val[o] = v; e.scale[o] = std::max(1.0, std::max(std::fabs(v), mx));
     }
   } else if (f == "batch_mean") {
-    e.out_dims = c.dims; e.out_B = 1; e.val.assign(g.V, 0); e.scale.assign(g.V, 1);
-    for (uint32_t i = 0; i < g.V; ++i) { double s = 0, mx = 0; for (uint32_t b = 0; b < c.B; ++b) { double a = x[(size_t)b * g.V + i]; s += a; mx = std::max(mx, std::fabs(a)); } e.val[i] = s / c.B; e.scale[i] = std::max(1.0, std::max(std::fabs(e.val[i]), mx)); }
+    e.out_dims = c.dims; e.out_B = 1; e.val.assign(g.V, 0); e.scale.assign(g.V, 1); e.extra.assign(g.V, 0);
+    for (uint32_t i = 0; i < g.V; ++i) { double s = 0, sa = 0, mx = 0; for (uint32_t b = 0; b < c.B; ++b) { double a = x[(size_t)b * g.V + i]; s += a; sa += std::fabs(a); mx = std::max(mx, std::fabs(a)); } e.val[i] = s / c.B; e.extra[i] = (c.B - 1.0) * u * sa / c.B; e.scale[i] = std::max(1.0, std::max(std::fabs(e.val[i]), mx)); }
   } else if (f == "batch_normalize") {
-    full(); e.extra.assign(e.val.size(), 0); e.illcond.assign(e.val.size(), 0);
+    full(); e.illcond.assign(e.val.size(), 0); e.num.assign(e.val.size(), 0); e.en = e.vlo = e.vhi = e.num;
     const double eps = (double)1e-8f;   // `v + 1e-8` converts the literal to float (operator+(Var, float))
     for (uint32_t i = 0; i < g.V; ++i) {
       if (c.B == 1) { e.val[i] = x[i]; e.scale[i] = 0; continue; }  // documented formula: B/(B-1) undefined; the code returns x unchanged
@@ -226,9 +255,10 @@ static Expect expect(const Case &c, const Inputs &in) {
       double m = s / c.B, sc = (double)c.B / (c.B - 1.0), var = sc * (q / c.B - m * m);
       double dv = (3.0 * c.B + 4.0) / 2.0 * ULP32 * sc * mx * mx;
       for (uint32_t b = 0; b < c.B; ++b) {
-        size_t o = (size_t)b * g.V + i; double r = ((double)x[o] - m) / std::sqrt(var + eps);
+        size_t o = (size_t)b * g.V + i; double num = (double)x[o] - m, r = num / std::sqrt(var + eps), en = (c.B + 1.0) * u * mx + u * std::fabs(num);
         e.val[o] = r; e.scale[o] = std::max(1.0, std::max(std::fabs(r), mx));
-        if (var + eps > 4 * dv) e.extra[o] = std::fabs(r) * dv / (var + eps); else e.illcond[o] = 1;
+        if (var + eps > 4 * dv) e.extra[o] = std::fabs(r) * dv / (var + eps) + en / std::sqrt(var + eps);
+        else { e.illcond[o] = 1; e.num[o] = num; e.en[o] = en; e.vlo[o] = var - dv + eps; e.vhi[o] = var + dv + eps; }
       }
     }
   } else if (f == "selu" || f == "selu_custom") {
@@ -239,7 +269,7 @@ static Expect expect(const Case &c, const Inputs &in) {
   } else if (f == "ones") {
     full(); for (size_t o = 0; o < e.val.size(); ++o) { e.val[o] = 1; e.scale[o] = 0; }
   } else if (f == "container_sum" || f == "container_mean") {
-    full(); for (size_t o = 0; o < e.val.size(); ++o) { double v = (double)x[o] + in.y2[o] + in.y3[o]; double mx = std::max(std::fabs((double)x[o]), std::max(std::fabs((double)in.y2[o]), std::fabs((double)in.y3[o]))); if (f == "container_mean") v /= 3; e.val[o] = v; e.scale[o] = std::max(1.0, std::max(std::fabs(v), mx)); }
+    full(); for (size_t o = 0; o < e.val.size(); ++o) { double v = (double)x[o] + in.y2[o] + in.y3[o]; double mx = std::max(std::fabs((double)x[o]), std::max(std::fabs((double)in.y2[o]), std::fabs((double)in.y3[o]))); e.extra[o] = 2 * u * (std::fabs((double)x[o]) + std::fabs((double)in.y2[o]) + std::fabs((double)in.y3[o])); if (f == "container_mean") { v /= 3; e.extra[o] /= 3; } e.val[o] = v; e.scale[o] = std::max(1.0, std::max(std::fabs(v), mx)); }
   } else if (f.compare(0, 9, "dropout_r") == 0) {
     full();   // judged by judge_dropout
   } else throw std::runtime_error("unknown function " + f);
@@ -320,26 +350,38 @@ static Result run_case(const Case &c, Devs &devs) {
 static const char *FNS[] = {"logsumexp", "log_softmax", "softmax", "sum", "mean", "sce_dense", "sce_dense_tb1", "sce_sparse", "sce_sparse_1"};
 static const char *FNS_NODIM[] = {"batch_mean", "batch_normalize", "selu", "selu_custom", "dropout_r0_off", "dropout_r25_off", "dropout_r50_off", "dropout_r100_off", "dropout_r0_on", "dropout_r25_on", "dropout_r50_on", "dropout_r100_on", "container_sum", "container_mean", "zeros", "ones"};
 
+// the fixed inputs of the probe are judged exactly like a sweep case (same expectation, same tolerance, same
+// candidate rule); a verdict line `CAND|FAIL batch_normalize dev=<d> shape=-x<B> dim=0 seed=probe<k> :: ...` follows
+// the PROBE line when the value misses the tolerance (replay: composite_drv --probe)
+static void probe_verdict(const char *dn, const vector<float> &data, const Tensor &yt, int k) {
+  Case c{"batch_normalize", dn, vector<uint32_t>(), (uint32_t)data.size(), 0, 0}; Inputs in; in.x = data; in.tB = c.B;
+  Result r = compare(expect(c, in), yt.shape(), yt.to_vector());
+  if (r.ok) return;
+  std::ostringstream o; o.precision(9); o << " samples x=("; for (size_t b = 0; b < data.size(); ++b) o << (b ? "," : "") << data[b]; o << ")";
+  std::cout << (r.cand ? "CAND " : "FAIL ") << "batch_normalize dev=" << dn << " shape=-x" << c.B << " dim=0 seed=probe" << k << " :: " << r.cls << " " << r.details << o.str() << "\n";
+}
 static int probe(Devs &devs) {
   // batch::normalize on a constant minibatch: exact value 0 everywhere (x - m = 0, v = 0, eps > 0)
-  const float cs[] = {0.1f, 3.3f, 7.7f, 100.1f, 1000.1f};
+  const float cs[] = {0.1f, 3.3f, 7.7f, 100.1f, 1000.1f}; int k = 0;
   for (const char *dn : {"naive", "eigen"}) for (uint32_t B : {2u, 3u, 5u, 7u}) for (float cv : cs) {
     Device &dev = devs.get(dn); Device::set_default(dev);
     vector<float> data(B, cv); Tensor x = F::input<Tensor>(Shape(vector<uint32_t>(), B), data, dev);
-    vector<float> y = F::batch::normalize(x).to_vector();
+    Tensor yt = F::batch::normalize(x); vector<float> y = yt.to_vector();
     bool bad = false; double worst = 0; for (float v : y) { if (!std::isfinite(v)) bad = true; worst = std::max(worst, std::fabs((double)v)); }
     std::cout.precision(9);
     std::cout << "PROBE batch_normalize dev=" << dn << " shape=-x" << B << " const=" << cv << " -> " << (bad ? "NOT-FINITE" : "finite") << " max|y|=" << worst << " y0=" << y[0] << " (exact 0)\n";
+    probe_verdict(dn, data, yt, k++);
   }
   // two nearly equal samples: exact value -+ (x0 - x1) / |x0 - x1| / sqrt(2) up to eps
   const float pairs[][2] = {{-5.04516506f, -5.04212427f}, {-7.91470528f, -7.91219139f}, {-3.67219067f, -3.67176938f}, {100.0f, 100.001f}};
   for (const char *dn : {"naive", "eigen"}) for (auto &pr : pairs) {
     Device &dev = devs.get(dn); Device::set_default(dev);
     vector<float> data(pr, pr + 2); Tensor x = F::input<Tensor>(Shape(vector<uint32_t>(), 2), data, dev);
-    vector<float> y = F::batch::normalize(x).to_vector();
+    Tensor yt = F::batch::normalize(x); vector<float> y = yt.to_vector();
     double m = ((double)pr[0] + pr[1]) / 2, var = 2.0 * (((double)pr[0] * pr[0] + (double)pr[1] * pr[1]) / 2 - m * m), ex = (pr[0] - m) / std::sqrt(var + (double)1e-8f);
     std::cout.precision(9);
     std::cout << "PROBE batch_normalize dev=" << dn << " shape=-x2 x=(" << pr[0] << "," << pr[1] << ") -> y0=" << y[0] << " exact " << ex << "\n";
+    probe_verdict(dn, data, yt, k++);
   }
   return 0;
 }
